@@ -58,4 +58,74 @@ def wfFastq (e : Biogo.Fastq.Encoding) (r : Biogo.Fastq.QRec) : Bool :=
 def wfFastqPlain (r : Biogo.Fastq.QRec) : Bool :=
   nameOK r.name && descOK r.desc && fastqLettersOK r.letters && r.quals.isEmpty
 
+/-! ### layouts (C04; C01 is the special case "the writer's layout")
+
+A file is a list of raw lines, each ended by LF except possibly the last (`Terminated`).
+A raw line shows its content followed by any number of trailing blanks (`Padded`): the blanks
+of Go's `asciiSpace` other than LF — so the CR of a CRLF terminator is a trailing blank, and
+CRLF files, files with mixed terminators and files with trailing white space are all covered
+by the same relation. -/
+
+/-- blanks that may trail a line: tab, VT, FF, CR, space -/
+def isBlank (b : UInt8) : Bool := b == 9 || b == 11 || b == 12 || b == 13 || b == 32
+
+/-- `raw` is `c` followed by trailing blanks -/
+def Padded (c raw : Bytes) : Prop := ∃ post, raw = c ++ post ∧ ∀ b ∈ post, isBlank b = true
+
+/-- `bs` consists of the lines `lines`, each followed by LF; the last one may lack it
+    (it is then non-empty: there is no line after a final LF) -/
+inductive Terminated : List Bytes → Bytes → Prop
+  | nil : Terminated [] []
+  | last (l : Bytes) : l ≠ [] → (∀ b ∈ l, b ≠ 10) → Terminated [l] l
+  | lf (l : Bytes) (ls : List Bytes) (bs : Bytes) :
+      (∀ b ∈ l, b ≠ 10) → Terminated ls bs → Terminated (l :: ls) (l ++ 10 :: bs)
+
+/-- every line followed by LF -/
+def joinLF (lines : List Bytes) : Bytes := lines.flatMap (· ++ [10])
+
+/-- the header line of a record: prefix, name, and ` description` if there is one -/
+def headerLine (pfx : UInt8) (name desc : Bytes) : Bytes :=
+  pfx :: name ++ (if desc.isEmpty then [] else 32 :: desc)
+
+/-- FASTA: the sequence lines of one record are pieces of its letters in order, cut anywhere
+    (any wrap width, also one single line); an empty piece is a blank line -/
+inductive SeqLines : Bytes → List Bytes → Prop
+  | nil : SeqLines [] []
+  | cons (c raw ls : Bytes) (raws : List Bytes) :
+      Padded c raw → SeqLines ls raws → SeqLines (c ++ ls) (raw :: raws)
+
+/-- FASTA: the lines of a file holding exactly the records `recs` -/
+inductive FastaLines : List Biogo.Fasta.Rec → List Bytes → Prop
+  | nil : FastaLines [] []
+  | blank (raw : Bytes) (recs : List Biogo.Fasta.Rec) (lines : List Bytes) :
+      Padded [] raw → FastaLines recs lines → FastaLines recs (raw :: lines)
+  | record (r : Biogo.Fasta.Rec) (h : Bytes) (body : List Bytes) (rs : List Biogo.Fasta.Rec) (rest : List Bytes) :
+      Padded (headerLine 62 r.name r.desc) h → SeqLines r.letters body → FastaLines rs rest →
+      FastaLines (r :: rs) (h :: body ++ rest)
+
+/-- the bytes `bs` are the FASTA records `recs` in some layout: any wrapping of the sequence
+    lines, blank lines anywhere, trailing blanks, LF or CRLF, final terminator or not -/
+def FastaRenders (recs : List Biogo.Fasta.Rec) (bs : Bytes) : Prop :=
+  ∃ lines, FastaLines recs lines ∧ Terminated lines bs
+
+/-- FASTQ: the lines of a file holding exactly the records `recs`, whose quality lines are
+    `qline r` (the encoded scores): four lines per record — header, letters, `+` or `+` with
+    the header repeated, quality — and blank lines between records -/
+inductive FastqLines (qline : Biogo.Fastq.QRec → Bytes) : List Biogo.Fastq.QRec → List Bytes → Prop
+  | nil : FastqLines qline [] []
+  | blank (raw : Bytes) (recs : List Biogo.Fastq.QRec) (lines : List Bytes) :
+      Padded [] raw → FastqLines qline recs lines → FastqLines qline recs (raw :: lines)
+  | record (r : Biogo.Fastq.QRec) (h s p q : Bytes) (rs : List Biogo.Fastq.QRec) (rest : List Bytes) :
+      Padded (headerLine 64 r.name r.desc) h → Padded r.letters s →
+      (Padded [43] p ∨ Padded (headerLine 43 r.name r.desc) p) → Padded (qline r) q →
+      FastqLines qline rs rest → FastqLines qline (r :: rs) (h :: s :: p :: q :: rest)
+
+/-- the bytes `bs` are the FASTQ records `recs` in some layout: blank lines between records,
+    trailing blanks, LF or CRLF, final terminator or not.  The second alternative is the
+    file whose last record has no letters and whose final newline is missing: its empty
+    quality line has disappeared with the newline. -/
+def FastqRenders (qline : Biogo.Fastq.QRec → Bytes) (recs : List Biogo.Fastq.QRec) (bs : Bytes) : Prop :=
+  (∃ lines, FastqLines qline recs lines ∧ Terminated lines bs) ∨
+  (∃ lines, FastqLines qline recs (lines ++ [[]]) ∧ bs = joinLF lines)
+
 end Biogo.Spec.Seqio
